@@ -97,10 +97,15 @@ def extra(case, lines, rot):
         if p[0] == 'code' and p[5] == 'single':
             if any(case['blocks'][case['lines'][j - 1][2] - 1]['shape'] == 'pair2' for j in range(p[1], p[2] + 1) if case['lines'][j - 1][2]):
                 return []
+    # a third of the programs runs as the doctest of a real module whose globals collide with the names the program binds
+    with_module = rot % 3 == 0
     # (i) reference execution
     Tref = []
     nsref = _namespace(Tref)
     helper_keys = set(nsref)
+    from . import xdv_c01mod
+    if with_module and case['runset']:         # the module is imported right before the first statement that runs
+        nsref.update({k: v for k, v in vars(xdv_c01mod).items() if not k.startswith('__')})
     src = deprompt(case, lines)
     buf = io.StringIO()
     try:
@@ -123,7 +128,7 @@ def extra(case, lines, rot):
     T = []
     with warnings.catch_warnings():
         warnings.simplefilter('ignore')
-        dt = doctest_example.DocTest(text, callname='c01', mode='native')
+        dt = doctest_example.DocTest(text, callname='c01', mode='native', modpath=xdv_c01mod.__file__ if with_module else None)
         dt.config['default_runtime_state'] = {'IGNORE_WANT': True}
         dt.config['colored'] = False
         dt.global_namespace = SnapDict()
